@@ -10,6 +10,15 @@ cell, the judged functions are called on it (and judged by judge_pairs with the 
 changed in place through a public setter and only then the case proper is evaluated; and on the documented input forms
 (read-only / column-major / integer-typed arrays, whole-number positions that Atoms stores as integers).
 
+PROCESS history: every array handed out by a judged call (the warm-up calls, the 8 calls of the case, the atom-by-atom
+dvect calls of the displacement clause, calls with other numbers of pairs made afterwards) is entered in a Ledger with a
+snapshot taken at return time; after all calls every one of them must still equal its snapshot, results of different calls
+must not share memory, and the caller's input arrays must be unchanged (a result that a later call overwrites is not the
+separation of ITS points any more).  FLOATING DTYPE: positions stored / passed as float32 or float16 (Atoms keeps the
+dtype); the positions are rounded to that dtype first, so the values atomman is given are exact and the float64 tolerances
+below apply unchanged (only displacement(box_reference=None), documented as "the straight difference between the
+positions", is judged in the precision of numpy's result type for that difference).
+
 Every case is expressed in a LENGTH UNIT: cell vectors, origin and positions are all multiplied by 10^k (k = 0 in 3 of 8
 cases, else -12..6; 1e-10 = a crystal in SI metres, which atomman's working units may be).  The docstrings of the five
 entry points state no length unit and no absolute tolerance (checked in dvect.pyx, dmag.pyx, displacement.py,
@@ -43,7 +52,11 @@ RULE = ("cells as C01 (LAMMPS triangular form, lengths 0.5-50, tilts up to 1.5 l
         "changed in place into the cell of the case through every public way (vects=, set(...) in its five forms, set_vectors, "
         "System.box_set with and without scale, System.wrap) and the atoms are given their positions through every public setter; "
         "displacement(): the same histories on both systems, systems built with scale=True / safecopy / a shared Box, "
-        "whole-number positions stored as integers; EVERY case is evaluated under all 8 "
+        "whole-number positions stored as integers; positions stored in / passed as float32 (1 case in 4) or float16 (1 in 8, units "
+        "0.01..10) arrays after rounding them to that dtype (displacement: either or both systems); every array handed out by a "
+        "judged call (warm-up calls included) is compared with a snapshot taken at return time after all later calls with the same "
+        "and (2 cases in 3) other numbers of pairs / other reference cells, and results of different calls must not share memory; "
+        "EVERY case is evaluated under all 8 "
         "periodicity settings (order varied).  Non-trivial: under at least one setting with a periodic axis the winning image of "
         "at least one pair is not the direct separation (displacement: same, with a reference cell chosen)")
 ASSUMPTIONS = ["numpy linear algebra is correct",
@@ -63,24 +76,25 @@ PBCS = gens.PBCS
 
 # ----------------------------------------------------------------------------- building inputs
 
-def _spell(P, flat, how):
+def _spell(P, flat, how, dtype=float):
+    """`dtype`: floating dtype of the ndarray spellings (the values of P are exactly representable in it)"""
     A = P[0] if flat else P
     if how == 'array':
-        return np.array(A, dtype=float)
+        return np.array(A, dtype=dtype)
     if how == 'fview':      # non-contiguous view with the same values
-        W = np.zeros(A.shape[:-1] + (6,), dtype=float)
+        W = np.zeros(A.shape[:-1] + (6,), dtype=dtype)
         W[..., ::2] = A
         return W[..., ::2]
     if how == 'readonly':   # the caller's array must not be written to
-        R = np.array(A, dtype=float)
+        R = np.array(A, dtype=dtype)
         R.setflags(write=False)
         return R
     if how == 'forder':     # column-major memory layout
-        return np.asfortranarray(np.array(A, dtype=float))
+        return np.asfortranarray(np.array(A, dtype=dtype))
     if how == 'intarray':   # integer-typed ndarray (only for the free functions: System.* documents ints as indices)
         if np.all(A == np.rint(A)):
             return np.rint(A).astype(np.int64)
-        return np.array(A, dtype=float)
+        return np.array(A, dtype=dtype)
     if how == 'intlist':    # plain Python ints (only for the free functions: System.* documents ints as indices)
         if np.all(A == np.rint(A)):
             return np.rint(A).astype(int).tolist()
@@ -235,6 +249,73 @@ def wrap_pbc(i):
     return PBCS[i % 7]
 
 
+_FDT = {'f32': np.float32, 'f16': np.float16}
+
+
+def float_dtype(name, unit):
+    """the narrow floating dtype of a case, or None for float64.  float16 (largest finite value 65504, spacing 6e-8 near
+    zero) only for length units in which the positions of the generated cells are inside its range; else float32"""
+    if name not in _FDT:
+        return None
+    if name == 'f16' and not (1e-2 <= unit <= 10.0):
+        return np.float32
+    return _FDT[name]
+
+
+def narrow(X, dt):
+    """X rounded to the floating dtype dt (float32 if a value leaves the range of float16), as an array of that dtype"""
+    X = np.asarray(X, dtype=float)
+    R = X.astype(dt)
+    if not np.all(np.isfinite(R)):
+        R = X.astype(np.float32)
+    if not np.all(np.isfinite(R)):
+        raise HarnessError('positions outside the range of float32')
+    return R
+
+
+class Ledger:
+    """every array a judged call handed out (and every ndarray it was given), with a snapshot taken at return time.  The
+    property speaks about the separation RETURNED for two points: the array the caller holds must stay that separation
+    whatever is computed afterwards, so at the end of a case each one is compared with its snapshot (which was judged by
+    the oracles when it was taken), and results of different calls must not share memory."""
+
+    def __init__(self):
+        self.results = []
+        self.inputs = []
+
+    def add(self, raw, where):
+        if isinstance(raw, np.ndarray):
+            self.results.append((raw, np.array(raw, copy=True), where))
+        return raw
+
+    def add_input(self, arr, where):
+        if isinstance(arr, np.ndarray) and not any(arr is a for a, _, _ in self.inputs):
+            self.inputs.append((arr, np.array(arr, copy=True), where))
+        return arr
+
+    def verify(self, labs):
+        res = self.results
+        for raw, snap, where in res:
+            if not (raw.shape == snap.shape and np.array_equal(raw, snap)):
+                raise Violation('the array returned by %s was %r at return time and is %r after later calls'
+                                % (where, snap.tolist(), raw.tolist()))
+        for arr, snap, where in self.inputs:
+            if not np.array_equal(arr, snap):
+                raise Violation('the input array of %s was changed: %r -> %r' % (where, snap.tolist(), arr.tolist()))
+        for i in range(len(res)):
+            a = res[i][0]
+            for j in range(i + 1, len(res)):
+                if np.shares_memory(a, res[j][0]):
+                    raise Violation('the arrays returned by two calls share memory: %s / %s' % (res[i][2], res[j][2]))
+            for arr, _, where in self.inputs:
+                if np.shares_memory(a, arr):
+                    raise Violation('the array returned by %s shares memory with an input array (%s)' % (res[i][2], where))
+        if len(res) >= 2:
+            labs.add('ledger')
+            if len({r[0].size for r in res}) >= 2:
+                labs.add('ledger_mixed_counts')
+
+
 def judge_pairs(d, m, B0, B1, V, pbc, where):
     """the lattice, 27-candidate and length oracles for one call of dvect (d) and/or dmag (m) on pairs B0[i] -> B1[i]"""
     D0 = B1 - B0
@@ -264,13 +345,15 @@ def judge_pairs(d, m, B0, B1, V, pbc, where):
                 raise Violation('%s: pair %d: dmag = %.17g but |dvect| = %.17g' % (where, i, m[i], Ld[i]))
 
 
-def _ghost(am, cell, pbc):
+def _ghost(am, cell, pbc, ledger):
     """a short-lived other Box is used by both functions and dropped (its id may be taken over by the next Box)"""
     g = am.Box(vects=gens.cell_vects(cell), origin=gens.cell_origin(cell))
     V = np.array(g.vects, dtype=float)
     B0 = np.array([[0.1, 0.2, 0.3]]) @ V + np.array(g.origin)
     B1 = np.array([[0.9, 0.8, 0.1]]) @ V + np.array(g.origin)
-    judge_pairs(am.dvect(B0, B1, g, pbc), am.dmag(B0, B1, g, pbc), B0, B1, V, pbc, 'short-lived box pbc=%r' % (pbc,))
+    where = 'short-lived box pbc=%r' % (pbc,)
+    judge_pairs(ledger.add(am.dvect(B0, B1, g, pbc), 'dvect ' + where), ledger.add(am.dmag(B0, B1, g, pbc), 'dmag ' + where),
+                B0, B1, V, pbc, where)
     del g
 
 
@@ -294,14 +377,22 @@ class Setup:
         whole = cart and bool(np.all(A0 == np.rint(A0)) and np.all(A1 == np.rint(A1)))
         self.intstore = whole and self.route != 'func' and case.get('postype', 'float') != 'float'
         self.labs = set()
+        self.ledger = Ledger()
+        # narrow floating dtype in which the positions are stored / passed (values rounded to it first: exact inputs)
+        self.fdt = None if self.intstore else float_dtype(case.get('fdtype', 'f64'), self.unit)
+        fdt = self.fdt
         how = hist['how'] if hist else None
         if hist and self.intstore and how not in _STILL:
             how = 'sys_box_set'
         need_sys = self.route != 'func' or (hist is not None and (how.startswith('sys_') or how == 'wrap' or hist['wform'] == 'sys'))
 
+        def exact(X):
+            """float64 array of the values of X rounded to the storage dtype"""
+            return X if fdt is None else narrow(X, fdt).astype(float)
+
         def cartesian(V, o, widen=False):
             if cart and not widen:
-                return A0, A1
+                return exact(A0), exact(A1)
             if cart:
                 inv = np.linalg.inv(V)
                 R0, R1 = (A0 - o) @ inv, (A1 - o) @ inv
@@ -309,7 +400,7 @@ class Setup:
                 R0, R1 = A0, A1
             if widen:       # most atoms outside the box, so that wrap() has something to do
                 R0, R1 = 1.5 * R0 - 0.25, 1.5 * R1 - 0.25
-            return R0 @ V + o, R1 @ V + o
+            return exact(R0 @ V + o), exact(R1 @ V + o)
 
         # ---- the Box object in its first state
         if hist is None:
@@ -317,7 +408,7 @@ class Setup:
         else:
             pbcw = wrap_pbc(hist['wpbc']) if how == 'wrap' else PBCS[hist['wpbc']]
             if hist.get('ghost'):
-                _ghost(am, hist['cell'], pbcw)
+                _ghost(am, hist['cell'], pbcw, self.ledger)
             first = c if how == 'wrap' else hist['cell']
         self.box = am.Box(vects=gens.cell_vects(first), origin=gens.cell_origin(first))
         self.system = None
@@ -327,6 +418,8 @@ class Setup:
             pos = np.vstack([Q0, Q1])
             if self.intstore:
                 pos = _int_form(pos, case['postype'])
+            elif fdt is not None:
+                pos = narrow(pos, fdt)
             self.system = am.System(atoms=am.Atoms(pos=pos), box=self.box, pbc=[True, True, True])
             if self.intstore:
                 # (since fix 2a7c2bf Atoms stores whole-number input as floats; integer storage is labelled when it still occurs)
@@ -342,6 +435,9 @@ class Setup:
                 _peek(self.box)
             if hist['warm'] != 'none':
                 Q0, Q1 = cartesian(Vf, of, widen=(how == 'wrap'))
+                if hist['wform'] == 'sys':      # judged for the positions the System really holds
+                    held = np.array(self.system.atoms.pos, dtype=float)
+                    Q0, Q1 = held[:self.n0], held[self.n0:]
                 N = max(self.n0, self.n1)
                 B0 = np.broadcast_to(Q0, (N, 3)) if self.n0 == 1 else Q0
                 B1 = np.broadcast_to(Q1, (N, 3)) if self.n1 == 1 else Q1
@@ -356,10 +452,16 @@ class Setup:
                     if wd:
                         d = self.system.dvect(i0, i1)
                 else:
+                    W0, W1 = (Q0, Q1) if fdt is None else (narrow(Q0, fdt), narrow(Q1, fdt))
+                    self.ledger.add_input(W0, 'warm-up pos_0')
+                    self.ledger.add_input(W1, 'warm-up pos_1')
                     if wm:
-                        m = am.dmag(Q0, Q1, self.box, pbcw)
+                        m = am.dmag(W0, W1, self.box, pbcw)
                     if wd:
-                        d = am.dvect(Q0, Q1, self.box, pbcw)
+                        d = am.dvect(W0, W1, self.box, pbcw)
+                # handed out now, judged now, and compared with this state again after all later calls (Ledger)
+                self.ledger.add(d, 'dvect ' + where)
+                self.ledger.add(m, 'dmag ' + where)
                 judge_pairs(d, m, B0, B1, Vf, pbcw, where)
                 self.labs.add('hist_warm_' + hist['warm'])
                 self.labs.add('hist_warm')
@@ -375,11 +477,11 @@ class Setup:
             if 'hist_warm' in self.labs:
                 self.labs.add('hist_warm_changed')
         if cart:
-            self.P0, self.P1 = A0, A1
+            self.P0, self.P1 = exact(A0), exact(A1)
             self.S0 = self.S1 = None
         else:
             self.S0, self.S1 = A0, A1
-            self.P0, self.P1 = A0 @ self.V + self.o, A1 @ self.V + self.o
+            self.P0, self.P1 = exact(A0 @ self.V + self.o), exact(A1 @ self.V + self.o)
         if self.system is not None:
             if hist is not None and not self.intstore:
                 sp = set_positions(self.system, np.vstack([self.P0, self.P1]),
@@ -389,6 +491,26 @@ class Setup:
             held = np.array(self.system.atoms.pos, dtype=float)
             require(held.shape == (self.natoms, 3), lambda: 'harness: system holds positions of shape %r' % (held.shape,))
             self.P0, self.P1 = held[:self.n0], held[self.n0:]
+            sdt = self.system.atoms.pos.dtype
+            if sdt.kind == 'f' and sdt.itemsize < 8:
+                self.labs.add('pos_f%d' % (8 * sdt.itemsize))
+            self.ledger.add_input(self.system.atoms.pos, 'system.atoms.pos')
+        # dtype of the ndarray spellings: the narrow one if it holds the judged positions exactly (a System whose first state
+        # was outside the range of float16 stores float32, and its setters round to that), else the next wider one
+        self.adt = float
+        for dt in ((fdt, np.float32) if fdt is not None else ()):
+            with np.errstate(over='ignore'):
+                if all(np.array_equal(X.astype(dt).astype(float), X) for X in (self.P0, self.P1)):
+                    self.adt = dt
+                    break
+        if self.system is None and self.adt is not float:
+            self.labs.add('pos_f%d' % (8 * np.dtype(self.adt).itemsize))
+        if self.route in ('func', 'sys_pos', 'sys_mix') and self.adt is not float:
+            self.labs.add('arg_f%d' % (8 * np.dtype(self.adt).itemsize))
+        if fdt is not None and not cart:
+            # the positions really used are rounded ones: their relative coordinates (for the in-cell premise) are recomputed
+            inv = np.linalg.inv(self.V)
+            self.S0, self.S1 = (self.P0 - self.o) @ inv, (self.P1 - self.o) @ inv
         self.N = max(self.n0, self.n1)
         self.B0 = np.broadcast_to(self.P0, (self.N, 3)) if self.n0 == 1 else self.P0
         self.B1 = np.broadcast_to(self.P1, (self.N, 3)) if self.n1 == 1 else self.P1
@@ -407,19 +529,50 @@ class Setup:
         if self.route == 'sys_idx':
             return (_index(0, self.n0, self.natoms, case['idx']), _index(self.n0, self.n1, self.natoms, case['idx']))
         how = case['spell']
+        dt = self.adt
         if self.route != 'func':    # System.* documents integers as atom indices: whole numbers are spelled as floats there
             how = {'intlist': 'list', 'intarray': 'array'}.get(how, how)
         if self.route == 'sys_mix':
-            return (_spell(self.P0, case['flat0'], how), _index(self.n0, self.n1, self.natoms, case['idx']))
-        return (_spell(self.P0, case['flat0'], how), _spell(self.P1, case['flat1'], how))
+            return (_spell(self.P0, case['flat0'], how, dt), _index(self.n0, self.n1, self.natoms, case['idx']))
+        return (_spell(self.P0, case['flat0'], how, dt), _spell(self.P1, case['flat1'], how, dt))
 
     def call(self, what, pbc):
-        """what = 'dvect' | 'dmag'; returns the raw result"""
+        """what = 'dvect' | 'dmag'; returns the raw result (entered in the ledger together with the arrays it was given)"""
         a0, a1 = self.args()
+        where = '%s[%s] pbc=%r' % (what, self.route, pbc)
+        self.ledger.add_input(a0, where + ' pos_0')
+        self.ledger.add_input(a1, where + ' pos_1')
         if self.route == 'func':
-            return getattr(self.am, what)(a0, a1, self.box, _spell_pbc(pbc, self.case['pbcspell']))
-        self.system.pbc = _spell_pbc(pbc, self.case['pbcspell'])
-        return getattr(self.system, what)(a0, a1)
+            raw = getattr(self.am, what)(a0, a1, self.box, _spell_pbc(pbc, self.case['pbcspell']))
+        else:
+            self.system.pbc = _spell_pbc(pbc, self.case['pbcspell'])
+            raw = getattr(self.system, what)(a0, a1)
+        return self.ledger.add(raw, where)
+
+    def finish(self, labs):
+        """after the 8 judged calls of the case (all with the same number of pairs): optionally judged calls with OTHER numbers
+        of pairs; then every array handed out since the objects were made is compared with its snapshot"""
+        am, k = self.am, int(self.case.get('after', 0))
+        pbc = self.pbcs[0]
+        extra = []
+        if k & 1:       # one pair more
+            extra.append((np.vstack([self.B0, self.B1[:1]]), np.vstack([self.B1, self.B0[:1]])))
+        if k & 2:       # a single pair (for N = 1: two pairs)
+            extra.append((self.B0[-1:], self.B1[-1:]) if self.N > 1 else (np.vstack([self.B0, self.B0]), np.vstack([self.B1, self.B1])))
+        for B0, B1 in extra:
+            B0, B1 = np.array(B0, dtype=float), np.array(B1, dtype=float)
+            where = 'afterwards, %d pairs, pbc=%r' % (len(B0), pbc)
+            d = self.ledger.add(am.dvect(B0, B1, self.box, pbc), 'dvect ' + where)
+            m = self.ledger.add(am.dmag(B0, B1, self.box, pbc), 'dmag ' + where)
+            judge_pairs(d, m, B0, B1, self.V, pbc, where)
+            labs.add('after_other_count')
+        self.ledger.verify(labs)
+        if 'hist_warm' in labs and 'ledger' in labs:
+            labs.add('ledger_warm')
+        for f in ('pos_f32', 'pos_f16'):
+            if f in labs and 'nt' in labs:
+                labs.add('nt_' + f)
+        return nt_unit_labels(labs)
 
     def dvect(self, pbc):
         raw = self.call('dvect', pbc)
@@ -492,9 +645,12 @@ def check_lattice(d, D0, V, inv, pbc, sc, cond, where):
         i = int(np.argmax(bad.any(axis=1)))
         raise Violation('%s: pair %d: (d - d0).V^-1 = %r is not integer (deviation %.3g, tol %.3g); d=%r d0=%r'
                         % (where, i, r[i].tolist(), dev[i].max(), tol[i], d[i].tolist(), D0[i].tolist()))
+    # (where the separation is so much larger than the cell that rounding alone moves (d - d0).V^-1 by half a unit, rint() of
+    # it is noise, not a shift: nothing can be said about such a pair here; the length oracles still apply to it)
+    resolved = tol < 0.25
     for ax in range(3):
-        if not pbc[ax] and np.any(n[:, ax] != 0):
-            i = int(np.argmax(n[:, ax] != 0))
+        if not pbc[ax] and np.any((n[:, ax] != 0) & resolved):
+            i = int(np.argmax((n[:, ax] != 0) & resolved))
             raise Violation('%s: pair %d: shifted by %d cell vectors along NON-periodic axis %d; d=%r d0=%r'
                             % (where, i, int(n[i, ax]), ax, d[i].tolist(), D0[i].tolist()))
     rec = D0 + n @ V
@@ -540,7 +696,7 @@ def oracle_lattice(case):
                 labs.add('nt_mixed')
             if np.any((n != 0).sum(axis=1) >= 2):
                 labs.add('multi_axis_shift')
-    return nt_unit_labels(labs)
+    return S.finish(labs)
 
 
 def oracle_best27(case):
@@ -555,7 +711,7 @@ def oracle_best27(case):
         if not any(pbc):
             err = np.abs(d - S.D0).max(axis=1)
             require(bool(np.all(err <= S.atol)), lambda: '%s: no periodic axis but d != p1 - p0 (max diff %.3g)' % (where, err.max()))
-    return nt_unit_labels(labs)
+    return S.finish(labs)
 
 
 def oracle_mag(case):
@@ -584,7 +740,7 @@ def oracle_mag(case):
             raise Violation('%s: pair %d: dmag = %.17g is longer than candidate #%d of length %.17g' % (where, i, m[i], j, L27[i, j]))
         require(bool(np.all(m >= 0)), lambda: '%s: negative distance %r' % (where, m))
         nontrivial_labels(L27, Ld, S.atol, pbc, labs)
-    return nt_unit_labels(labs)
+    return S.finish(labs)
 
 
 def oracle_true_nearest(case):
@@ -652,7 +808,7 @@ def oracle_true_nearest(case):
                         % (where, i, res['vec'].tolist(), res['n'].tolist(), d[i].tolist(), err, atol))
             else:
                 labs.add('tie')
-    return nt_unit_labels(labs)
+    return S.finish(labs)
 
 
 def _same_choice(a, b, L27, atol):
@@ -667,24 +823,27 @@ def _same_choice(a, b, L27, atol):
     return None
 
 
-def _judge_displacement(am, sys0, sys1, ref, pbcs, pbc_other, labs, final=True, unit=1.0):
+def _judge_displacement(am, sys0, sys1, ref, pbcs, pbc_other, labs, ledger, final=True, unit=1.0, stage=''):
     """displacement(sys0, sys1, ref) in the state the two systems are in NOW, for each periodicity setting in `pbcs` of the
-    reference system (the other one keeps pbc_other)"""
+    reference system (the other one keeps pbc_other); every array handed out is entered in `ledger`"""
     box0, box1 = sys0.box, sys1.box
     V0, V1 = np.array(box0.vects, dtype=float), np.array(box1.vects, dtype=float)
     P0, P1 = np.array(sys0.atoms.pos, dtype=float), np.array(sys1.atoms.pos, dtype=float)
     N = len(P0)
     D0 = P1 - P0
-    stage = '' if final else ' [before the systems were changed in place]'
     use_final = ref in ('final', 'default')
     refsys, refbox, Vr = (sys1, box1, V1) if use_final else (sys0, box0, V0)
     if final and np.abs(V0 - V1).max() > 1e-6 * np.abs(V0).max():
         labs.add('boxes_differ')
     if ref is None:
-        disp = np.asarray(am.displacement(sys0, sys1, box_reference=None))
+        disp = np.asarray(ledger.add(am.displacement(sys0, sys1, box_reference=None), 'displacement(None)' + stage))
         require(disp.shape == (N, 3), lambda: 'displacement(None)%s returned shape %r for %d atoms' % (stage, disp.shape, N))
-        err = np.abs(disp - D0).max()
-        require(err <= 4 * EPS * max(np.abs(P0).max(), np.abs(P1).max()),
+        # "None computes the straight difference between the positions": judged in the precision of numpy's result type of
+        # that difference (float32 when BOTH systems store float32 positions; float64 for every other combination met here)
+        rt = np.result_type(sys0.atoms.pos.dtype, sys1.atoms.pos.dtype)
+        eps = float(np.finfo(rt).eps) if rt.kind == 'f' else EPS
+        err = np.abs(np.array(disp, dtype=float) - D0).max()
+        require(err <= 4 * eps * max(np.abs(P0).max(), np.abs(P1).max()),
                 lambda: 'displacement(box_reference=None)%s differs from pos_1 - pos_0 by %.3g' % (stage, err))
         if final and np.any(np.abs(D0) > 0):
             labs.add('nt_direct')
@@ -697,11 +856,11 @@ def _judge_displacement(am, sys0, sys1, ref, pbcs, pbc_other, labs, final=True, 
         refsys.pbc = pbc
         if final and pbc != pbc_other:
             labs.add('pbc_differ')
-        if ref == 'default':
-            disp = np.asarray(am.displacement(sys0, sys1))
-        else:
-            disp = np.asarray(am.displacement(sys0, sys1, box_reference=ref))
         where = 'displacement(box_reference=%r)%s ref pbc=%r other pbc=%r' % (ref, stage, pbc, pbc_other)
+        if ref == 'default':
+            disp = np.asarray(ledger.add(am.displacement(sys0, sys1), where))
+        else:
+            disp = np.asarray(ledger.add(am.displacement(sys0, sys1, box_reference=ref), where))
         require(disp.shape == (N, 3) and disp.dtype.kind == 'f', lambda: '%s returned shape %r dtype %r for %d atoms' % (where, disp.shape, disp.dtype, N))
         require(bool(np.all(np.isfinite(disp))), lambda: '%s returned non-finite values' % where)
         disp = np.array(disp, dtype=float)
@@ -710,7 +869,7 @@ def _judge_displacement(am, sys0, sys1, ref, pbcs, pbc_other, labs, final=True, 
         Ld = check_best27(disp, L27, atol, where, C)
         # atom by atom against the separation function itself under the reference cell
         for i in range(N):
-            one = np.asarray(am.dvect(P0[i], P1[i], refbox, pbc), dtype=float).reshape(3)
+            one = np.asarray(ledger.add(am.dvect(P0[i], P1[i], refbox, pbc), 'dvect of atom %d, %s' % (i, where)), dtype=float).reshape(3)
             msg = _same_choice(disp[i], one, L27[i], float(atol[i]))
             require(msg is None, lambda: '%s: atom %d: displacement vs dvect of the same atom: %s' % (where, i, msg))
         if final and any(pbc) and np.any(L27[:, 0] > Ld * (1 + 1e-9) + 8 * atol):
@@ -723,6 +882,9 @@ def _judge_displacement(am, sys0, sys1, ref, pbcs, pbc_other, labs, final=True, 
                 labs.add('nt_hist_changed')
             if ('int_stored_0' in labs or 'int_given_0' in labs) and np.any(np.abs(disp / unit - np.rint(disp / unit)) > 1e-3):
                 labs.add('nt_int0_fractional')
+            for f in ('f32_both', 'f16_both', 'narrow_both'):
+                if f in labs:
+                    labs.add('nt_' + f)
     refsys.pbc = pbc_other
 
 
@@ -742,6 +904,9 @@ def oracle_displacement(case):
             cart and itype in ('1', 'both') and bool(np.all(R[1] == np.rint(R[1])))]
     ref = case['ref']
     labs = {'mode_' + case['mode'], 'ref_' + str(ref)}
+    ledger = Ledger()
+    fstore = case.get('fstore') or ['f64', 'f64']
+    fdts = [float_dtype(fstore[k], unit) for k in (0, 1)]
     labs |= {'cell0_' + l for l in gens.cell_labels(c[0])}
     labs |= unit_labels(unit)
     pbc_other = PBCS[case['pbc_other']]
@@ -783,11 +948,11 @@ def oracle_displacement(case):
             system = am.System(atoms=am.Atoms(pos=_int_form(P, case['iform'])), box=box, pbc=pbc_other)
             labs.add(('int_stored_%d' if system.atoms.pos.dtype.kind in 'iu' else 'int_given_%d') % k)
         elif build == 'scale':
-            system = am.System(atoms=am.Atoms(pos=np.array(S)), box=box, pbc=pbc_other, scale=True)
+            system = am.System(atoms=am.Atoms(pos=np.array(S) if fdts[k] is None else narrow(S, fdts[k])), box=box, pbc=pbc_other, scale=True)
         elif build == 'safecopy':
-            system = am.System(atoms=am.Atoms(pos=np.array(P)), box=box, pbc=pbc_other, safecopy=True)
+            system = am.System(atoms=am.Atoms(pos=np.array(P) if fdts[k] is None else narrow(P, fdts[k])), box=box, pbc=pbc_other, safecopy=True)
         else:
-            system = am.System(atoms=am.Atoms(pos=np.array(P)), box=box, pbc=pbc_other)
+            system = am.System(atoms=am.Atoms(pos=np.array(P) if fdts[k] is None else narrow(P, fdts[k])), box=box, pbc=pbc_other)
         systems.append(system)
     sys0, sys1 = systems
     # ---- history on these objects
@@ -795,7 +960,8 @@ def oracle_displacement(case):
         V_first = [np.array(s.box.vects, dtype=float) for s in systems]
         if hist['warm']:
             labs.add('hist_warm')
-            _judge_displacement(am, sys0, sys1, ref, [PBCS[hist['wpbc']]], pbc_other, labs, final=False)
+            _judge_displacement(am, sys0, sys1, ref, [PBCS[hist['wpbc']]], pbc_other, labs, ledger, final=False,
+                                stage=' [before the systems were changed in place]')
         for k in (0, 1):
             if k == 1 and build == 'sharedbox':
                 hows[1] = 'vects='
@@ -810,8 +976,29 @@ def oracle_displacement(case):
         refk = 1 if ref in ('final', 'default') else 0
         if ref is not None and np.abs(np.array(systems[refk].box.vects) - V_first[refk]).max() > 1e-6 * np.abs(V_first[refk]).max():
             labs.add('hist_changed')
-    # ---- the judged state
-    _judge_displacement(am, sys0, sys1, ref, PBCS, pbc_other, labs, unit=unit)
+    # ---- the judged state (the positions the systems really hold, in whatever dtype Atoms keeps them, are exact numbers)
+    kinds = [s.atoms.pos.dtype for s in systems]
+    for k in (0, 1):
+        if kinds[k].kind == 'f' and kinds[k].itemsize < 8:
+            labs.add('f%d_stored_%d' % (8 * kinds[k].itemsize, k))
+    if all(d.kind == 'f' and d.itemsize < 8 for d in kinds):
+        labs.add('narrow_both')
+        if all(d.itemsize == 4 for d in kinds):
+            labs.add('f32_both')
+        if all(d.itemsize == 2 for d in kinds):
+            labs.add('f16_both')
+    for k in (0, 1):
+        ledger.add_input(systems[k].atoms.pos, 'system_%d.atoms.pos' % k)
+    _judge_displacement(am, sys0, sys1, ref, PBCS, pbc_other, labs, ledger, unit=unit)
+    if case.get('after'):
+        # the same two systems under the other reference cells (judged alike), then every array handed out so far is
+        # compared with what it was when it was returned
+        labs.add('after_other_ref')
+        for other in ('initial', 'final', None):
+            if other != ('final' if ref == 'default' else ref):
+                _judge_displacement(am, sys0, sys1, other, [pbc_other], pbc_other, labs, ledger, final=False,
+                                    stage=' [afterwards]')
+    ledger.verify(labs)
     return nt_unit_labels(labs)
 
 
@@ -824,7 +1011,11 @@ _HIST = {'hist': 0.2, 'hist_changed': 0.18, 'hist_warm_changed': 0.13, 'hist_wra
 # length unit 10^k of the whole case (cell, origin, positions): non-trivial cases in every class of unit
 _UNITS = {'nt_unit_1': 0.15, 'unit<=1e-7': 0.085, 'nt_unit<=1e-7': 0.065, 'nt_unit_1e-6..0.1': 0.05, 'unit>=10': 0.055,
           'nt_unit>=10': 0.04, 'hist_other_unit': 0.02}
-_COMMON = dict(_ROUTES, **_SHAPES, **_HIST, **_UNITS, nt=0.36, nt_mixed=0.36, tilted=0.33, rotated=0.19, origin=0.23, kind_dyadic=0.06,
+# process history (results of earlier calls compared with their snapshot after later calls with the same and with other numbers
+# of pairs; warm-up results among them) and positions stored / passed as float32 / float16 (guards at half the observed share)
+_PROC = {'ledger': 0.5, 'ledger_mixed_counts': 0.38, 'ledger_warm': 0.13, 'after_other_count': 0.32, 'pos_f32': 0.13,
+         'nt_pos_f32': 0.1, 'arg_f32': 0.095, 'pos_f16': 0.022, 'nt_pos_f16': 0.016, 'arg_f16': 0.015}
+_COMMON = dict(_ROUTES, **_SHAPES, **_HIST, **_UNITS, **_PROC, nt=0.36, nt_mixed=0.36, tilted=0.33, rotated=0.19, origin=0.23, kind_dyadic=0.06,
                kind_intcart=0.045)
 _FORMS = {'spell_fview': 0.03, 'spell_tuple': 0.03, 'spell_list': 0.03, 'spell_intlist': 0.03, 'spell_readonly': 0.03,
           'spell_forder': 0.03, 'spell_intarray': 0.03, 'int_given_positions': 0.013}
@@ -845,7 +1036,7 @@ CLAUSES = [
     Clause('true_nearest', oracle_true_nearest, gens_c02.premise_heavy, quick=10000, thorough=160000,
            min_share={'nt': 0.35, 'premise_tilted': 0.2, 'premise_tilted_wrapped': 0.1, 'premise_ortho': 0.2,
                       'premise_fails_incell': 0.2, 'premise_onface': 0.19, 'unique_vector_checked': 0.4, 'tie': 0.02,
-                      'beyond27': 0.08, 'kind_dyadic': 0.08, 'hist_changed': 0.18, 'hist_warm_changed': 0.13, **_UNITS},
+                      'beyond27': 0.08, 'kind_dyadic': 0.08, 'hist_changed': 0.18, 'hist_warm_changed': 0.13, **_UNITS, **_PROC},
            desc='both points in the cell and (cell orthogonal or L* < half the smallest perpendicular width) => |d| equals the '
                 'minimum L* of an exhaustive lattice search (vector too when the minimiser is unique); always |d| >= L*'),
     Clause('displacement', oracle_displacement, gens_c02.displacement_cases, quick=8000, thorough=120000,
@@ -853,8 +1044,11 @@ CLAUSES = [
                       'ref_None': 0.07, 'ref_final': 0.2, 'hist': 0.2, 'hist_changed': 0.15, 'nt_hist_changed': 0.12,
                       'hist_warm': 0.07, 'hist_wrap': 0.03, 'hist_sys_box_set_scale': 0.05, 'int_given_0': 0.1,
                       'int_given_1': 0.035, 'nt_int0_fractional': 0.05, 'build_scale': 0.06, 'build_safecopy': 0.07,
-                      **dict(_UNITS, hist_other_unit=0.04)},
+                      'ledger': 0.45, 'ledger_mixed_counts': 0.33, 'after_other_ref': 0.2, 'f32_both': 0.08, 'nt_f32_both': 0.055,
+                      'narrow_both': 0.1, 'nt_narrow_both': 0.07, 'f32_stored_0': 0.12, 'f32_stored_1': 0.13, 'f16_both': 0.012,
+                      'nt_f16_both': 0.009, **dict(_UNITS, hist_other_unit=0.04)},
            desc="displacement(s0, s1, box_reference) under 'final'/default, 'initial', None: lattice + 27-candidate oracles under "
                 'the reference cell and pbc, and equal to dvect atom by atom; all 8 pbc of the reference system; systems holding '
-                'whole-number positions as integers, built with scale=True / safecopy / a shared Box, or changed in place before'),
+                'whole-number positions as integers or float32 / float16 positions, built with scale=True / safecopy / a shared Box, or '
+                'changed in place before; results kept and compared with their snapshots after the calls for the other reference cells'),
 ]
